@@ -36,13 +36,53 @@ Proof.
   - intros (v & Hin). exists (j, v, true). split; auto. apply filter_In; auto.
 Qed.
 
+(* ---------------------------------------------------------------- static dependencies *)
+(* node x is read (in any mode) somewhere in the expression *)
+Fixpoint occurs (x : nat) (e : expr) : Prop :=
+  match e with
+  | Const _ => False
+  | Rd j | RdU j => j = x
+  | Untr a => occurs x a
+  | Add a b | Lt a b => occurs x a \/ occurs x b
+  | Ite c a b => occurs x c \/ occurs x a \/ occurs x b
+  | Wr _ a => occurs x a
+  end.
+(* signal x is written somewhere in the expression *)
+Fixpoint writes (x : nat) (e : expr) : Prop :=
+  match e with
+  | Const _ | Rd _ | RdU _ => False
+  | Untr a => writes x a
+  | Add a b | Lt a b => writes x a \/ writes x b
+  | Ite c a b => writes x c \/ writes x a \/ writes x b
+  | Wr t a => t = x \/ writes x a
+  end.
+Definition dep1 (i x : nat) : Prop :=
+  match decl_of p i with
+  | DSig _ _ => False
+  | DMemo _ e => occurs x e
+  | DDer e => occurs x e
+  | DEff _ b h => occurs x b \/ occurs x h
+  end.
+(* the static cone: everything node i may read, directly or through other nodes *)
+Inductive dep : nat -> nat -> Prop :=
+| dep_one i x : dep1 i x -> dep i x
+| dep_step i y x : dep1 i y -> dep y x -> dep i x.
+
+Lemma dep_trans i y x : dep i y -> dep y x -> dep i x.
+Proof.
+  intros H. revert x. induction H as [i y H|i z y H1 H2 IH]; intros x Hx.
+  - eapply dep_step; eauto.
+  - eapply dep_step; eauto.
+Qed.
+
 (* ---------------------------------------------------------------- structure of the graph *)
 Record WF (s : state) : Prop := {
   wf_len : nlen s = length p;
   wf_srclt : forall i j, In j (srcs (getn s i)) -> j < i;
   wf_nodup : forall j, NoDup (subs (getn s j));
   wf_sub_src : forall j k, In k (subs (getn s j)) -> In j (srcs (getn s k));   (* edges are symmetric *)
-  wf_src_sub : forall j k, In j (srcs (getn s k)) -> In k (subs (getn s j))
+  wf_src_sub : forall j k, In j (srcs (getn s k)) -> In k (subs (getn s j));
+  wf_dep : forall i j, In j (srcs (getn s i)) -> dep i j      (* dynamic edges lie inside the static cone *)
 }.
 
 Lemma wf_sub_gt s j k : WF s -> In k (subs (getn s j)) -> j < k.
@@ -66,7 +106,11 @@ Proof.
   - intros j. rewrite (proj2 (He j)). apply W.
   - intros j k. rewrite (proj2 (He j)), (proj1 (He k)). apply W.
   - intros j k. rewrite (proj2 (He j)), (proj1 (He k)). apply W.
+  - intros i j. rewrite (proj1 (He i)). apply W.
 Qed.
+
+Lemma wf_sub_dep s j k : WF s -> In k (subs (getn s j)) -> dep k j.
+Proof. intros W H. eapply wf_dep; eauto. eapply wf_sub_src; eauto. Qed.
 
 (* ---------------------------------------------------------------- per-node clauses *)
 (* every tracked entry of the last run's log still shows the source's current value *)
